@@ -1,5 +1,5 @@
 """C17 — interpolation weights are linear-exact; conservative sigma regridding conserves column mass."""
-import math
+import math, os
 from fractions import Fraction
 from harness import common as C
 
@@ -407,6 +407,8 @@ def coq_term(case, obs):
 # ----------------------------------------------------------------------------- independent oracle
 def _hat_oracle(xs, x):
     """exact weights of piecewise-linear interpolation / linear extrapolation at x (xs any strict monotone order)"""
+    if len(xs) == 1:
+        return [Fraction(1)]          # one level: partition of unity leaves no other choice
     order = sorted(range(len(xs)), key=lambda i: xs[i])
     sx = [xs[i] for i in order]
     k = 1
@@ -611,6 +613,84 @@ def shrink(case):
         if len(case['to']) > 2:
             for k in range(1, len(case['to']) - 1):
                 yield dict(case, to=case['to'][:k] + case['to'][k + 1:])
+
+
+def translate():
+    """Tie T for C17: (1) fail-closed AST obligations — the statements of getinterpweights / sigma2coeff / the conserve branch of
+    interpSigma / the N-D branch of interpDimension that Model/Interp.v transcribes are exactly what the source says now;
+    (2) coq/Gen/InterpSrc.v is regenerated: whether getinterpweights has the single-level guard."""
+    import ast
+    from translate import py2coq
+    out = []
+
+    def ob(anchor, ok, detail=''):
+        out.append(dict(anchor=anchor, ok=bool(ok), detail='' if ok else detail))
+    un = lambda n: ast.unparse(n).strip()   # noqa
+
+    def body_of(path, name, cls=None):
+        tree = ast.parse(open(path).read())
+        nodes = tree.body
+        if cls:
+            nodes = [c for n in tree.body if isinstance(n, ast.ClassDef) and n.name == cls for c in n.body]
+        for n in nodes:
+            if isinstance(n, ast.FunctionDef) and n.name == name:
+                b = n.body
+                if b and isinstance(b[0], ast.Expr) and isinstance(getattr(b[0], 'value', None), ast.Constant) and isinstance(b[0].value.value, str):
+                    b = b[1:]
+                return n, b
+        return None, None
+    cu = os.path.join(C.SRC, 'PseudoNetCDF', 'coordutil.py')
+    flag = False
+    try:
+        fn, body = body_of(cu, 'getinterpweights')
+        stm = [un(b) for b in body]
+        guard = "if np.size(xs) == 1:\n    return np.ones((1, np.size(nxs)), dtype='d')"
+        core = ['from scipy.interpolate import interp1d',
+                'ident = np.identity(xs.size)',
+                "weight_func = interp1d(xs, ident, axis=-1, kind='linear', bounds_error=False, fill_value='extrapolate')",
+                'weights = weight_func(nxs)',
+                'if not extrapolate:\n    weights = np.maximum(0, weights)\n    weights /= weights.sum(0)',
+                'return weights']
+        flag = (stm == core[:1] + [guard] + core[1:])
+        ob('coordutil.getinterpweights: body is interp1d(identity) [+ single-level guard], maximum(0, .), renormalise (impl_weights / hat)',
+           stm == core or flag, 'body differs from the modelled statements: %r' % stm)
+        ob('coordutil.getinterpweights(xs, nxs, kind, fill_value, extrapolate=False) signature',
+           [a.arg for a in fn.args.args] == ['xs', 'nxs', 'kind', 'fill_value', 'extrapolate'] and un(fn.args.defaults[-1]) == 'False', 'signature changed')
+        fn, body = body_of(cu, 'sigma2coeff')
+        stm = [un(b) for b in body]
+        exp = ["edges = np.interp(tovglvls[::-1], fromvglvls[::-1], np.arange(fromvglvls.size)[::-1])[::-1].repeat(2, 0)[1:-1].reshape(-1, 2).astype('d')",
+               "coeff = np.zeros((fromvglvls.size - 1, tovglvls.size - 1), dtype='d')",
+               "for li, (b, t) in enumerate(edges):\n    ll = np.floor(b).astype('i')\n    ul = np.ceil(t).astype('i')\n    for lay in range(ll, ul):\n"
+               "        bf = max(b - lay, 0)\n        tf = min(t - lay, 1)\n        myf = min(bf, tf)\n        myf = tf - bf\n        coeff[lay, li] = myf",
+               'return coeff']
+        ob('coordutil.sigma2coeff: interp of the target edges into source-edge indices, floor/ceil layer loop, tf - bf (fidx / cnum / impl_fdp)',
+           stm == exp, 'body differs from the modelled statements: %r' % stm)
+    except Exception as e:   # noqa
+        ob('coordutil.py: parse', False, str(e))
+    try:
+        io = os.path.join(C.SRC, 'PseudoNetCDF', 'cmaqfiles', '_ioapi.py')
+        fn, body = body_of(io, 'interpSigma', cls='ioapi_base')
+        allst = [un(n) for n in ast.walk(fn) if isinstance(n, (ast.Assign, ast.Return))]
+        for st in ["coeff = sigma2coeff(myvglvls, vglvls)", "dp_in = -np.diff(myvglvls.astype('d'))[:, None]", 'fdp = dp_in * coeff',
+                   'ndp = fdp.sum(0)', 'nvals = (data[:, None] * fdp).sum(0) / ndp', 'zs = (myvglvls[:-1] + myvglvls[1:]) / 2.0',
+                   'nzs = (vglvls[:-1] + vglvls[1:]) / 2.0',
+                   'weights = getinterpweights(zs, nzs, kind=interptype, fill_value=fill_value, extrapolate=extrapolate)',
+                   'newdata = (weights * data[:, None]).sum(0)']:
+            ob('ioapi_base.interpSigma: `%s` (impl_conserve / apply_col)' % st, st in allst, 'statement not found')
+        fl = os.path.join(C.SRC, 'PseudoNetCDF', 'core', '_files.py')
+        fn, body = body_of(fl, 'interpDimension', cls='PseudoNetCDFFile')
+        allst = [un(n) for n in ast.walk(fn) if isinstance(n, (ast.Assign, ast.Return))]
+        for st in ['weights = getinterpweights(olddimvals, newdimvals, **interpkwds)', 'newdata = (weights * data[:, None]).sum(0)',
+                   'od = olddimvals[ii + s_[:,] + kk]', 'nd = newdimvals[ii + s_[:,] + kk]', 'weights = getinterpweights(od, nd, **interpkwds)',
+                   'interpedv = (weights * vv[ii + s_[:,] + kk][:, None]).sum(0)', 'nvv[ii + s_[...,] + kk] = interpedv']:
+            ob('PseudoNetCDFFile.interpDimension: `%s` (apply_col per column)' % st, st in allst, 'statement not found')
+    except Exception as e:   # noqa
+        ob('interpSigma / interpDimension: parse', False, str(e))
+    text = ('(* GENERATED by harness/props/c17.py translate() from %s — do not edit. *)\n'
+            '(* true iff getinterpweights starts with the guard `if np.size(xs) == 1: return np.ones((1, np.size(nxs)), dtype=\'d\')` *)\n'
+            'Definition single_level_ones : bool := %s.\n' % ('src/PseudoNetCDF/coordutil.py', 'true' if flag else 'false'))
+    py2coq.write_if_changed(os.path.join(C.COQ, 'Gen', 'InterpSrc.v'), text)
+    return out
 
 
 LEVEL_TEXT = ('Theorems (Props/C17.v, all closed under the global context) over an exact Gallina model of getinterpweights / sigma2coeff / '
